@@ -1,15 +1,15 @@
 package props
 
 import (
-	"sort"
-	"strings"
-	"unicode/utf8"
 	"encoding/json"
 	"fmt"
 	"net/url"
 	"os"
+	"sort"
+	"strings"
 	"testing"
 	"time"
+	"unicode/utf8"
 
 	"github.com/go-jose/go-jose/v3"
 	"github.com/ory/fosite"
